@@ -213,6 +213,34 @@ PROPS["C02"] = {
                     "chunk ids in the queue are distinct and increasing (C11_ids_increasing)"],
 }
 
+PROPS["C03"] = {
+    "modules": ["SlogModel.Props.C03"],
+    "components": [("buffer", 250, 4000)],
+    "rule": "one case = 1-3 generations of the real hybridbuffer (Config.NewBufferer / Accept / RegisterNewConsumer / Destroy) on one "
+            "directory: memory window 2/4/8, queue capacity 3/10/50, size limit 0.2-3x the data (or a few bytes), usable or "
+            "unusable directory, up to 30 accepts of 0-12 bytes interleaved with consumer takes, confirms (before or after "
+            "destroy), hand-backs, files zeroed or removed behind the buffer's back; after every operation the harness waits "
+            "until the feeder goroutine is blocked (its state is read from runtime.Stack) and compares all counters and gauges, "
+            "window length, the feeder's hand and the directory contents with Buffer.step; distinct by ops; all non-trivial",
+    "level_text": "Theorems over every generation start (any capacities, limits, directory state, files found) and every legal "
+                  "operation sequence of Buffer.step: C03_conserved (each accepted / recovered chunk is exactly one of queued, in "
+                  "hand, in the window, held by the consumer, confirmed, counted dropped, kept as a file), C03_shutdown_accounted "
+                  "(after destroy nothing is queued: held / confirmed / dropped / kept, each once), C03_fifo and "
+                  "C03_taken_in_order (consumer order is a subsequence of recovered-in-name-order ++ acceptance order), "
+                  "C03_window_bound, C03_recovered_first. Tie: state-by-state correspondence of the real buffer with the model at "
+                  "every quiescent point (counters, gauges, window, hand, file contents) and seven regenerated source facts "
+                  "(non-blocking select in Accept, spill rule, recovery before feeder start, channel capacities, quota test before "
+                  "the write, checked hand-back, save order at shutdown).",
+    "level_note": "Trusted: Lean kernel + 3 standard axioms; sampled correspondence at quiescent points (between them the real "
+                  "goroutines interleave; the harness does not explore those schedules). PARTIAL: byte identity of delivered / "
+                  "kept chunks, the space bound and the memory bound at quiescent points are decided by the correspondence and the "
+                  "harness oracle, not yet by theorems; chunks saved concurrently by consumer hand-backs and the feeder at "
+                  "shutdown are serialised by the harness.",
+    "partial": "byte-identity, space-bound and memory-bound clauses not yet theorems; shutdown concurrency serialised",
+    "assumptions": ["chunk ids are never reused (C11_ids_increasing) and nobody else writes to the queue directory",
+                    "file operations are atomic at this level (step-level disk model: C04)"],
+}
+
 NOT_APPLICABLE = {k: "check not built yet in this round (planned in DESIGN.md section 6); no claim is made" for k in
                   ["C%02d" % i for i in range(1, 20)]}
 
